@@ -8,7 +8,7 @@ import (
 
 func init() {
 	register(&Property{ID: "C10", Run: runC10,
-		Explain: "Peer scoring decided structurally (numerical equality with the v1.1 formula over histories is NOT decidable by static analysis): (R10.1) every access to the scorer's shared state (peerStats, peerIPs, deliveries and its records, the five counters) happens with the scorer's mutex held — entry points lock, helpers are only called with it held (caller-propagated lock state), needed because validation workers call the tracer concurrently with the heartbeat; (R10.2) write-site inventory of the five counters: every store is a zeroing, `+= 1` followed on every path by the clamp against the matching ...Cap, a squared deficit under its guards (active and below threshold; additionally inMesh on disconnect, because Prune already charged peers that left the mesh), an uncapped `+= 1`/`+= count` (invalid deliveries, behaviour penalty), `*= matching decay` followed by the decay-to-zero clamp, or a recap to a lowered cap; SetTopicScoreParams recaps exactly when either cap was lowered (path table with flag propagation); (R10.3) sign discipline: validators accept a penalty weight only if it is not positive (or its whole group is zero in non-atomic mode) and a reward weight only if not negative; (R10.4) retention: a record is deleted on disconnect only on the `score > 0` edge (IP tracking removed first), otherwise marked disconnected with expire = now + RetainScore; refreshScores deletes only disconnected, expired records (IP tracking removed) and never decays disconnected peers; (R10.5) accepted-parameter safety: every integer division/modulo in the scoring code whose divisor is a parameter is dominated by a positivity test; (R10.6) formula table: each term of score() multiplies its designated quantity (linear / squared / quantised-and-capped) by its designated weight under its designated guard, each weight is used exactly once, the topic cap sits between the topic sum and P5; (R10.7) the mesh-delivery window of duplicates is anchored at the validation time (zero for not-yet-validated); (R10.8) NaN hygiene of accepted parameters: every float parameter that reaches the score unconditionally — each weight of a term of score(), and each decay factor of a counter whose term is added without a comparison on the counter (inventory recomputed from score()/refreshScores()) — is rejected when NaN/Inf on every accepting path of its validator, or known to be zero there. NOT decided: numerical equality with the formula, decay timing, NaN/Inf freedom beyond parameter hygiene (overflow of finite values, a NaN returned by the application score callback), IP colocation against real connections.",
+		Explain: "Peer scoring decided structurally (numerical equality with the v1.1 formula over histories is NOT decidable by static analysis): (R10.1) every access to the scorer's shared state (peerStats, peerIPs, deliveries and its records, the five counters) happens with the scorer's mutex held — entry points lock, helpers are only called with it held (caller-propagated lock state), needed because validation workers call the tracer concurrently with the heartbeat; (R10.2) write-site inventory of the five counters: every store is a zeroing, `+= 1` followed on every path by the clamp against the matching ...Cap, a squared deficit under its guards (active and below threshold; additionally inMesh on disconnect, because Prune already charged peers that left the mesh), an uncapped `+= 1`/`+= count` (invalid deliveries, behaviour penalty), `*= matching decay` followed by the decay-to-zero clamp, or a recap to a lowered cap; SetTopicScoreParams recaps exactly when either cap was lowered (path table with flag propagation); (R10.3) sign discipline: validators accept a penalty weight only if it is not positive (or its whole group is zero in non-atomic mode) and a reward weight only if not negative; (R10.4) retention: a record is deleted on disconnect only on the `score > 0` edge (IP tracking removed first), otherwise marked disconnected with expire = now + RetainScore; refreshScores deletes only disconnected, expired records (IP tracking removed) and never decays disconnected peers; (R10.5) accepted-parameter safety: every integer division/modulo in the scoring code whose divisor is a parameter is dominated by a positivity test; (R10.6) formula table: each term of score() multiplies its designated quantity (linear / squared / quantised-and-capped) by its designated weight under its designated guard, each weight is used exactly once, the topic cap sits between the topic sum and P5; (R10.7) the mesh-delivery window of duplicates is anchored at the validation time (zero for not-yet-validated); (R10.8) NaN hygiene of accepted parameters: every float parameter that reaches the score unconditionally — each weight of a term of score(), and each decay factor of a counter whose term is added without a comparison on the counter (inventory recomputed from score()/refreshScores()) — is rejected when NaN/Inf on every accepting path of its validator, or known to be zero there. (audit round) R10.8 covers every float64 field of the parameter structs plus a (0,1)-or-zero obligation per decay factor; (R10.9) the address list returned by getIPs has no repeated element; R10.2: the sticky penalty of Prune is charged only for a mesh member (scorer guard or membership at every tracer.Prune site). NOT decided: numerical equality with the formula, decay timing, NaN/Inf freedom beyond parameter hygiene (overflow of finite values, a NaN returned by the application score callback), IP colocation against real connections.",
 		Assume:  []string{"GossipSub v1.1 scoring function as specified (terms P1-P7)", "sync.Mutex semantics"},
 		Mutants: []Mutant{
 			{Name: "addpenalty-unlocked", File: "score.go", Old: "\tps.Lock()\n\tdefer ps.Unlock()\n\n\tpstats, ok := ps.peerStats[p]\n\tif !ok {\n\t\treturn\n\t}\n\n\tpstats.behaviourPenalty += float64(count)", New: "\tpstats, ok := ps.peerStats[p]\n\tif !ok {\n\t\treturn\n\t}\n\n\tpstats.behaviourPenalty += float64(count)", Expect: "R10.1"},
@@ -23,7 +23,12 @@ func init() {
 			{Name: "disconnect-keeps-ip-tracking", File: "score.go", Old: "\tif ps.score(p) > 0 {\n\t\tps.removeIPs(p, pstats.ips)\n\t\tdelete(ps.peerStats, p)", New: "\tif ps.score(p) > 0 {\n\t\tdelete(ps.peerStats, p)", Expect: "R10.4"},
 			{Name: "refresh-decays-disconnected", File: "score.go", Old: "\t\t\t// similarly, a well behaved peer does not lose its score by getting disconnected.\n\t\t\tcontinue\n", New: "\t\t\t// similarly, a well behaved peer does not lose its score by getting disconnected.\n", Expect: "R10.4"},
 			{Name: "p1-division-unguarded", File: "score.go", Old: "\t\tif tstats.inMesh && topicParams.TimeInMeshQuantum > 0 {", New: "\t\tif tstats.inMesh {", Expect: "R10.5"},
-			{Name: "nan-decay-behind-weight", File: "score_params.go", Old: "\tif isInvalidNumber(p.FirstMessageDeliveriesDecay) || p.FirstMessageDeliveriesWeight != 0 && (", New: "\tif p.FirstMessageDeliveriesWeight != 0 && (isInvalidNumber(p.FirstMessageDeliveriesDecay) || ", Expect: "R10.8"},
+			{Name: "nan-decay-behind-weight", File: "score_params.go", Old: "\tif (p.FirstMessageDeliveriesWeight != 0 || p.FirstMessageDeliveriesDecay != 0) && (", New: "\tif p.FirstMessageDeliveriesWeight != 0 && (", Expect: "R10.8"},
+			{Name: "inf-threshold-behind-weight", File: "score_params.go", Old: "\tif isInvalidNumber(p.MeshMessageDeliveriesThreshold) || p.MeshMessageDeliveriesWeight != 0 && p.MeshMessageDeliveriesThreshold <= 0 {", New: "\tif p.MeshMessageDeliveriesWeight != 0 && (isInvalidNumber(p.MeshMessageDeliveriesThreshold) || p.MeshMessageDeliveriesThreshold <= 0) {", Expect: "R10.8"},
+			{Name: "behaviour-decay-skipped-nonatomic", File: "score_params.go", Old: "p.BehaviourPenaltyWeight != 0 || p.BehaviourPenaltyThreshold != 0 || p.BehaviourPenaltyDecay != 0 {", New: "p.BehaviourPenaltyWeight != 0 || p.BehaviourPenaltyThreshold != 0 {", Expect: "R10.8"},
+			{Name: "decay-upper-bound-dropped", File: "score_params.go", Old: "(p.MeshFailurePenaltyDecay <= 0 || p.MeshFailurePenaltyDecay >= 1 || isInvalidNumber(p.MeshFailurePenaltyDecay))", New: "(p.MeshFailurePenaltyDecay <= 0 || isInvalidNumber(p.MeshFailurePenaltyDecay))", Expect: "R10.8"},
+			{Name: "ips-not-deduplicated", File: "score.go", Old: "\tslices.Sort(res)\n\treturn slices.Compact(res)\n", New: "\tslices.Sort(res)\n\treturn res\n", Expect: "R10.9"},
+			{Name: "ips-compact-unsorted", File: "score.go", Old: "\tslices.Sort(res)\n\treturn slices.Compact(res)\n", New: "\treturn slices.Compact(res)\n", Expect: "R10.9"},
 			{Name: "appweight-unvalidated", File: "score_params.go", Old: "\tif isInvalidNumber(p.AppSpecificWeight) {\n\t\treturn fmt.Errorf(\"invalid AppSpecificWeight; must be a valid number\")\n\t}\n", New: "", Expect: "R10.8"},
 			{Name: "p3-not-squared", File: "score.go", Old: "\t\t\t\tp3 := deficit * deficit\n", New: "\t\t\t\tp3 := deficit\n", Expect: "R10.6"},
 			{Name: "p2-p3b-weights-swapped", File: "score.go", Old: "\t\ttopicScore += p2 * topicParams.FirstMessageDeliveriesWeight", New: "\t\ttopicScore += p2 * topicParams.MeshFailurePenaltyWeight", Expect: "R10.6"},
@@ -344,6 +349,33 @@ func runC10(c *RuleCtx) {
 		checkScoreFormula(c, f)
 		checkNaNHygiene(c)
 	}
+	// R10.2 (cont.) the sticky penalty charged by Prune presupposes a real mesh removal: either the scorer itself
+	// charges only while the peer is marked inMesh, or every PRUNE reported to it is a removal of a member
+	{
+		scorerGuard := false
+		if f := p.Fn("(*peerScore).Prune"); f != nil {
+			inMesh := AtomBool("inMesh", func(v *V) bool { return v.IsField("topicStats.inMesh") })
+			n := 0
+			for _, s := range p.StoresTo2(f, "topicStats.meshFailurePenalty") {
+				n++
+				if ok, _ := p.DomAny(f, s.Node, AtomWant{inMesh, true}); ok {
+					scorerGuard = true
+				} else {
+					scorerGuard = false
+					break
+				}
+			}
+			if n == 0 {
+				scorerGuard = false
+			}
+		}
+		if scorerGuard {
+			c.OK("R10.2", "(*peerScore).Prune", "sticky penalty charged only for a peer marked inMesh", nil, "dominated by tstats.inMesh")
+		} else {
+			checkPruneOnlyMembers(c, "R10.2")
+		}
+	}
+	checkIPListDistinct(c)
 	if f := c.MustFn("R10.6", "(*peerScore).ipColocationFactor"); f != nil {
 		// squared surplus above the threshold, per IP
 		n := 0
